@@ -40,6 +40,13 @@ template <class T> static inline __attribute__((always_inline)) T *vh_new(size_t
   ASSUME(p != 0);
   return p;
 }
+// "n bytes from p may be read": decided by cbmc's object bounds; the native replay reads them so that ASan reports the region
+#ifdef VH_NATIVE
+static inline bool vh_readable(const void *p, size_t n) { volatile uint8_t s = 0; for (size_t i = 0; i < n; ++i) s = s + ((const volatile uint8_t *)p)[i]; (void)s; return true; }
+#else
+extern "C" bool __CPROVER_r_ok(const void *, size_t);
+#define vh_readable(p, n) __CPROVER_r_ok((p), (n))
+#endif
 static inline bool nondet_bool() { return nondet_u8() & 1; }
 // exact-size heap buffer with arbitrary contents
 static inline uint8_t *vh_bytes(size_t n) {
